@@ -584,6 +584,18 @@ def deep_inline(X: "Expander", t: T, depth: int = 3, _memo=None) -> T:
                     y = T("inlined", f.args[0], go(r, d - 1), y, src=y.src)
                 except RecursionError:
                     pass
+            elif f.op == "attr" and f.args[0].op == "param":
+                # self.method(...) inside a method: resolve through the class's MRO (no overriding subclass considered)
+                owner = X.P.functions.get(f.args[0].args[0])
+                if owner is not None and owner.cls is not None and owner.self_name == f.args[0].args[1] and not owner.is_classmethod:
+                    _, m = owner.cls.lookup(f.args[1])
+                    if isinstance(m, FunctionInfo) and not m.is_property and not m.is_abstract \
+                            and not any(f.args[1] in sc.methods for sc in X.P.subclasses(owner.cls)):
+                        try:
+                            r = X.inline(y, m, receiver=f.args[0])
+                            y = T("inlined", m, go(r, d - 1), y, src=y.src)
+                        except RecursionError:
+                            pass
         memo[k] = (x, y)
         return y
     return go(t, depth)
